@@ -64,12 +64,19 @@ def tree_hash():
     return _tree_hash
 
 
+BUILD_REPO = "/repo"   # where the configured build tree lives
+
+
 def build_dir():
     b = os.path.join(REPO, "_build")
     if os.path.exists(os.path.join(b, "build.ninja")):
         return b
-    alt = os.path.join(CACHE, "cfg")
-    return alt
+    # scratch copies of the repository (self-test / seeded mutants) borrow the
+    # configured build tree of /repo for flags and generated headers
+    b = os.path.join(BUILD_REPO, "_build")
+    if os.path.exists(os.path.join(b, "build.ninja")):
+        return b
+    return os.path.join(CACHE, "cfg")
 
 
 def ensure_tool():
@@ -108,8 +115,18 @@ def compile_db():
     if entries is None:
         raise AnalysisBroken("no build tree with build.ninja at %s" % b)
     db = {}
+    broot = os.path.dirname(b)
     for e in entries:
         f = os.path.normpath(e["file"])
+        if broot != REPO:
+            # rewrite source paths into the scratch copy, keep the build tree
+            def rw(x):
+                for top in ("src", "app", "test"):
+                    x = x.replace(broot + "/" + top + "/", REPO + "/" + top + "/")
+                    x = x.replace("-I" + broot + "/" + top + " ", "-I" + REPO + "/" + top + " ")
+                return x
+            f = rw(f)
+            e = dict(e, file=f, command=rw(e["command"] + " ").rstrip())
         if not (f.startswith(REPO + "/src/") or f.startswith(REPO + "/app/")):
             continue
         if not f.endswith(".cc") or f in db:
